@@ -151,6 +151,8 @@ type printer struct {
 	sb       strings.Builder
 	escaped  int // escaped runes in top-level text
 	rawClose int // '}' printed raw outside braces
+	ctrlEsc  int // \n \t \r written as escapes inside quoted literal arguments
+	ctrlEscDepth [8]int // the same by call depth
 	calls    int
 	stmts    int
 	maxDepth int
@@ -300,7 +302,7 @@ func (p *printer) arg(n *Node, depth int, inQ bool) {
 		}
 		if q {
 			p.sb.WriteByte('"')
-			p.sb.WriteString(n.T)
+			p.quotedLit(n.T, depth)
 			p.sb.WriteByte('"')
 		} else {
 			p.sb.WriteString(n.T)
@@ -323,6 +325,31 @@ func (p *printer) arg(n *Node, depth int, inQ bool) {
 		p.sb.WriteByte('"')
 	default:
 		p.stmt(n, depth+1, inQ)
+	}
+}
+
+// quotedLit prints the inside of a double-quoted literal argument of a call at
+// nesting depth `depth` (1 = call at the top level). The ONLY escapes judged
+// inside braces are the three control-character escapes: a newline, tab or
+// carriage return of the literal may be written raw or as \n, \t, \r ("\n,
+// \t, \r give control characters"), at any depth. Nothing else is escaped here.
+func (p *printer) quotedLit(s string, depth int) {
+	for i := 0; i < len(s); i++ {
+		b := s[i]
+		if b == '\n' || b == '\t' || b == '\r' {
+			if p.ch.pick(2) == 1 {
+				p.sb.WriteByte('\\')
+				p.sb.WriteByte(map[byte]byte{'\n': 'n', '\t': 't', '\r': 'r'}[b])
+				p.ctrlEsc++
+				d := depth
+				if d >= len(p.ctrlEscDepth) {
+					d = len(p.ctrlEscDepth) - 1
+				}
+				p.ctrlEscDepth[d]++
+				continue
+			}
+		}
+		p.sb.WriteByte(b)
 	}
 }
 
